@@ -192,7 +192,7 @@ package collect
 // Buffered traces are undecided (worker invariant: decided traces leave the buffer in the same step).
 //@ spec orDefault(d time.Duration, def time.Duration) time.Duration := ite(d == 0, def, d)
 //@ spec buffered(c cache.Cache, id string) *types.Trace := asPtr(cached(c, id), *types.Trace)
-//@ contract collect.(*CollectorWorker).processSpan props C01,C03
+//@ contract collect.(*CollectorWorker).processSpan props C01,C02,C03,C05
 //@   arith math
 //@   requires cl != nil && cl.parent != nil && sp != nil && sp.Event != nil && owns(sp.Event)
 //@   let tr0 = buffered(cl.cache, sp.TraceID)
